@@ -8,8 +8,10 @@ def parseSrc (j : Json) : R Src := do
   let a ← asArr j
   match a with
   | [.str "param", i] => do pure (.param (← asNat i))
-  | [.str "fresh"] => pure .fresh
+  | [.str "fresh", k] => do pure (.fresh (← asNat k))
   | [.str "alias", ys] => do pure (.alias (← asList asNat ys))
+  | [.str "load", ys, l, k] => do pure (.load (← asList asNat ys) (← asNat l) (← asNat k))
+  | [.str "reach", ys] => do pure (.reach (← asList asNat ys))
   | [.str "unknown"] => pure .unknown
   | _ => throw s!"bad src {j.compress}"
 
@@ -20,6 +22,7 @@ partial def parseStmt (j : Json) : R Stmt := do
   | [.str "bind", x, s] => do pure (.bind (← asNat x) (← parseSrc s))
   | [.str "write", x] => do pure (.write (← asNat x))
   | [.str "ret", x] => do pure (.ret (← asNat x))
+  | [.str "store", x, l, y] => do pure (.store (← asNat x) (← asNat l) (← asNat y))
   | [.str "seq", ss] => do
       let l ← asArr ss
       let l ← l.mapM parseStmt
